@@ -82,12 +82,12 @@ func runFirstLock(c *Case) *outcome {
 		ready.Wait()
 		if release != nil {
 			// wait until every caller is parked on the global lock
-			deadline := time.Now().Add(2 * time.Second)
+			deadline := time.Now().Add(500 * time.Millisecond)
 			for {
 				gi := snapshot()
 				all := true
 				for _, g := range gids {
-					all = all && gi[g].state == "chan send" && gi[g].inKit
+					all = all && blockedState(gi[g].state) && gi[g].inKit
 				}
 				if all || time.Now().After(deadline) {
 					break
